@@ -799,7 +799,7 @@ def _work_root(b, op):
 
 def _transfers(b, src, dst):
     """blocks in which the whole content of collection local `src` is moved into collection local `dst`:
-       dst = src  |  dst.append(&mut src)  |  dst = mem::take(&mut src)  |  dst.extend(src)  |  mem::swap(&mut dst, &mut src)"""
+       dst = src  |  *(&mut dst) = src  |  dst.append(&mut src)  |  dst = mem::take(&mut src)  |  dst.extend(src)  |  mem::swap(&mut dst, &mut src)"""
     out = set()
     def taken_from(t):
         return bool(re.search(r'mem::(take|replace)', t['r'] or t['f'])) and bool(t['args']) and _root(b, t['args'][0]) == src
@@ -809,6 +809,12 @@ def _transfers(b, src, dst):
             ds = _whole_defs(b, r) if r is not None and r > b.argc else []
             if r == src or (len(ds) == 1 and ds[0][0] == 'call' and taken_from(ds[0][2])): out.add(bi)
         if k == 'call' and taken_from(d): out.add(bi)
+    for bi, st in b.stmts():                               # `*dst_ref = src` (an inlined helper that keeps the rest in its `&mut Vec` argument)
+        d = st['dst']; rv = st['rv']
+        if d['p'] == ['*'] and rv['k'] == 'use' and rv['ops'][0]['k'] == 'move' and _root(b, {'k': 'copy', 'pl': {'l': d['l'], 'p': []}}) == dst:
+            r = _root(b, rv['ops'][0])
+            ds = _whole_defs(b, r) if r is not None and r > b.argc else []
+            if r == src or (len(ds) == 1 and ds[0][0] == 'call' and taken_from(ds[0][2])): out.add(bi)
     for c in b.calls:
         if c.item in ('append', 'extend') and len(c.args) == 2 and _root(b, c.args[0]) == dst and _root(b, c.args[1]) == src: out.add(c.bb)
         if c.item == 'swap' and re.search(r'mem::swap', c.name) and len(c.args) == 2 and {_root(b, c.args[0]), _root(b, c.args[1])} == {src, dst}: out.add(c.bb)
@@ -877,13 +883,17 @@ def deps_rules(ctx):
                     tt, ff = (g.true_bb, g.false_bb) if rv['op'] == 'Eq' else (g.false_bb, g.true_bb)
                     tests.append((_root(b, _call_at(b, ln[0][4]).args[0]), tt, ff, g.switch_bb))
     a_ok = False
+    def holds_pending(X, at):
+        """in block `at`, collection local X holds exactly the entries the round just finished could not evaluate: it is the list they
+        were pushed to (read after the step loop), or that list's whole content has been moved into it on every path from the
+        step loop's exit (`x = p`, `x.append(&mut p)`, mem::take/swap, a helper returning p by value; the work-list variable itself
+        may play this role)"""
+        if X is None: return False
+        if X == P: return T.must_pass(b, 0, {at}, {step[0]})
+        tb = _transfers(b, P, X)
+        return bool(tb) and T.must_pass(b, none_bb, {at}, tb)
     for X, tt, ff, sb in tests:
-        if tt is None or ff is None or X is None: continue
-        if X == P:
-            if not T.must_pass(b, 0, {sb}, {step[0]}): continue                     # tested before the round has filled it
-        else:
-            tb = _transfers(b, P, X)
-            if not tb or not T.must_pass(b, none_bb, {sb}, tb): continue            # what is tested is not the pending list of the round just finished
+        if tt is None or ff is None or not holds_pending(X, sb): continue           # else: what is tested is not the pending list of the round just finished
         tr = T.reach_cp(b, [tt]); fr = T.reach_cp(b, [ff], stop={sb})
         if oks and oks <= tr and not (fr & oks) and all(b.dominates(sb, e) for e in oks): a_ok = True
     ctx.check(a_ok, R + '/exit/ok-only-when-nothing-pending', 'T-GUARD', b.name, 'Ok can be returned while dependencies are still pending (partial answer)', b.site())
@@ -895,10 +905,10 @@ def deps_rules(ctx):
         xs = [T.expr(b, x) for x in rv['ops']]
         for pos in (0, 1):
             x = xs[pos]; y = xs[1 - pos]
-            if not (x[0] == 'call' and x[1] == 'len' and len(x) > 4 and _root(b, _call_at(b, x[4]).args[0]) == P): continue
+            if not (x[0] == 'call' and x[1] == 'len' and len(x) > 4): continue
             if (rv['op'], pos) not in NO_PROGRESS: continue
-            # pending size taken after the step loop of this round
-            if not T.must_pass(b, outer_h, {x[4]}, {step[0]}): continue
+            # the pending size: taken from a holder of the pending entries, after the step loop of this round
+            if not holds_pending(_root(b, _call_at(b, x[4]).args[0]), x[4]) or not T.must_pass(b, outer_h, {x[4]}, {step[0]}): continue
             for g in T.guards_from_local(b, st['dst']['l'], bi):
                 es, ps = (g.true_bb, g.false_bb) if NO_PROGRESS[(rv['op'], pos)] else (g.false_bb, g.true_bb)
                 if es is None or ps is None: continue
@@ -922,9 +932,8 @@ def deps_rules(ctx):
         fresh = bool(ndefs) and T.must_pass(b, stall['progress'], {stall['bb']}, {bi for k, bi, c in ndefs})
         ctx.check(fresh, R + '/exit/progress-measure-updated', 'T-BRANCHFX', b.name, 'the remembered work-list size is not updated before retrying', b.site(stall['bb']))
     # ---- pending entries are the next round's work list
-    tb = _transfers(b, P, W) if W is not None else set()
-    start = stall['progress'] if stall is not None else none_bb
-    ctx.check(bool(tb) and all(T.must_pass(b, start, {tl}, tb) for tl in tails), R + '/queue/pending-requeued', 'T-BRANCHFX', b.name, 'pending entries are not moved back into the work list', b.site())
+    tb = _transfers(b, P, W) if W is not None else set()         # (before or after the exit tests: from the step loop's exit to every back edge)
+    ctx.check(bool(tb) and bool(tails) and all(T.must_pass(b, none_bb, {tl}, tb) for tl in tails), R + '/queue/pending-requeued', 'T-BRANCHFX', b.name, 'pending entries are not moved back into the work list', b.site())
 
 
 def _step_checks(b, ev, hdrs):
@@ -1013,7 +1022,12 @@ def use_rules(ctx):
 # eval_dependencies treats "the dependency could not be evaluated yet" as Err from the evaluation kernels:
 # a kernel that swallows a missing variable (seed C04-10: zero-factor shortcut) breaks the clean-failure
 # clause.  The kernels are decided by the C01 rule families, re-decided here.
-RELIES_ON = {'C01': ['C01.lookup', 'C01.fields', 'C01.every-term']}
+# evaluate_samples does not restore `substituted_value` into the sample states before eval_dependencies: it relies on
+# Instance::partial_evaluate having rewritten the functions of decision_variable_dependency with the fixed values
+# (seed C04-12: that loop removed -> after substitute, partial_evaluate, evaluate_samples a chain refers to a variable without
+# a value).  That clause of Instance::partial_evaluate is decided by the C03 rule family, re-decided here.
+RELIES_ON = {'C01': ['C01.lookup', 'C01.fields', 'C01.every-term'],
+             'C03': ['C03.instance/cover/decision_variable_dependency', 'C03.instance/apply/decision_variable_dependency']}
 
 
 def check(ctx):
